@@ -9,6 +9,7 @@ import Proofs.DepGraphClosure
 import Proofs.DepGraphEqv
 import Proofs.DepGraphDepsRec
 import Proofs.DepGraphDependsRec
+import Proofs.DepGraphDepsRecTotal
 import Proofs.FlattenDepthOne
 import Proofs.FlattenRanked
 import Proofs.DepGraphTopoComplete
@@ -28,7 +29,8 @@ graphs, every node once after all its dependencies, `cyclic` otherwise).
 `graft` refines its set-level counterpart (`graft_refines_spec`) and preserves the ordering constraints between
 the plain nodes (`graft_preserves_order`); transitive closure and reduction are proved on acyclic graphs (`closure_spec`, `reduction_spec`: same reachability,
 most / fewest edges).  `grafts_preserve_order` extends this to any sequence of grafts and `flatten_round_eq` shows that one round of the model's
-`flatten` is such a sequence.  Recursive `dependencies` is `dependencies_rec_reads` (partial correctness), recursive `depends` is `depends_rec_reads`
+`flatten` is such a sequence.  Recursive `dependencies` is `dependencies_rec_returns` (total: it always returns, cycles included, with exactly the
+reachable nodes; `dependencies_rec_reads` is the partial-correctness half), recursive `depends` is `depends_rec_reads`
 (total: it always answers, cycles included), `<=` is `le_reads`, `==` is `eq_reads`.
 `flatten(recurse=True)` returns on every well-founded nesting (`flatten_returns`, `flatten_all_plain`); that what it
 returns preserves the ordering constraints across several levels is not proved as one theorem — in the executable model and tied to the code by the correspondence
@@ -362,6 +364,18 @@ theorem dependencies_rec_reads {g : G} {s : Spec} (h : Refines g s) {x : Nat} (h
   have eE : g.Edge = s.E := by funext u w; exact propext (h.2.2 u w)
   intro y
   rw [dependenciesRec_spec h.1 ((h.2.1 x).2 hx) hl y, eE]
+
+/-- **`dependencies(x, recurse=True)` always returns, with the truth**: on every graph a history can build — cyclic
+ones included — the work-list loop comes to an end and hands back exactly the nodes `x` depends on directly or
+indirectly.  (The loop pops from the end of a list that may hold a position several times and processes a position
+again when it is popped again; that it ends all the same is the stack argument of `Proofs/DepGraphDepsRecTotal.lean`:
+a second copy of a position is only reached after all its successors have been seen, so it pushes nothing, and
+`size * size + size + 1` rounds are never exhausted.) -/
+theorem dependencies_rec_returns {g : G} {s : Spec} (h : Refines g s) {x : Nat} (hx : s.N x) :
+    ∃ l, g.dependenciesRec x = .ok l ∧ ∀ y, y ∈ l ↔ Relation.TransGen s.E x y := by
+  have eE : g.Edge = s.E := by funext u w; exact propext (h.2.2 u w)
+  obtain ⟨l, hl, hspec⟩ := dependenciesRec_total h.1 ((h.2.1 x).2 hx)
+  exact ⟨l, hl, by rw [← eE]; exact hspec⟩
 
 /-- **`depends(x, y, recurse=True)` always answers, with the truth**: on every graph a history can build — cyclic ones
 included — the search returns, and returns `True` exactly when `x` depends on `y` directly or indirectly.  (The pinned
